@@ -56,6 +56,7 @@ import (
 	exchangekeeper "github.com/provenance-io/provenance/x/exchange/keeper"
 	markertypes "github.com/provenance-io/provenance/x/marker/types"
 	"github.com/provenance-io/provenance/x/quarantine"
+	"github.com/provenance-io/provenance/x/sanction"
 	metadatatypes "github.com/provenance-io/provenance/x/metadata/types"
 	msgfeestypes "github.com/provenance-io/provenance/x/msgfees/types"
 	triggerkeeper "github.com/provenance-io/provenance/x/trigger/keeper"
@@ -234,7 +235,7 @@ func genPlan(r *RNG, nBlocks int, addrs []sdk.AccAddress) ([][]genOp, [][]genTx,
 		var ops []genOp
 		nops := 2 + r.Intn(6)
 		for i := 0; i < nops; i++ {
-			switch k := r.Intn(17); k {
+			switch k := r.Intn(18); k {
 			case 0: // name
 				owner := pick()
 				nm := fmt.Sprintf("n%d.verif", r.Intn(1000))
@@ -587,6 +588,47 @@ func genPlan(r *RNG, nBlocks int, addrs []sdk.AccAddress) ([][]genOp, [][]genTx,
 						fmt.Println("QMULTI done err=", err)
 					}
 					return err
+				})
+			case 17: // module parameters, boundary values included (zero splits, zero/huge limits, flags off)
+				which := r.Intn(6)
+				v := r.Intn(4)
+				desc = append(desc, fmt.Sprintf("params:%d", which))
+				ops = append(ops, func(c *genChain, ctx sdk.Context) error {
+					switch which {
+					case 0: // exchange: a denom split of exactly 0 is an exemption, not "unset"
+						splits := []uint32{0, 1, 10000, 350}
+						c.a.ExchangeKeeper.SetParams(ctx, &exchange.Params{
+							DefaultSplit: splits[(v+1)%4],
+							DenomSplits: []exchange.DenomSplit{{Denom: "nhash", Split: splits[v]}, {Denom: "usdx", Split: splits[(v+2)%4]}},
+							FeeCreatePaymentFlat: []sdk.Coin{sdk.NewInt64Coin("nhash", int64(v))}[:v%2],
+						})
+					case 1: // marker
+						mp := c.a.MarkerKeeper.GetParams(ctx)
+						mp.EnableGovernance = v%2 == 0
+						mp.MaxSupply = []sdkmath.Int{sdkmath.ZeroInt(), sdkmath.NewInt(1), sdkmath.NewIntFromUint64(1 << 63), sdkmath.NewIntWithDecimal(1, 30)}[v]
+						c.a.MarkerKeeper.SetParams(ctx, mp)
+					case 2: // msgfees
+						fp := c.a.MsgFeesKeeper.GetParams(ctx)
+						fp.NhashPerUsdMil = []uint64{0, 1, 25_000_000, 1 << 63}[v]
+						c.a.MsgFeesKeeper.SetParams(ctx, fp)
+					case 3: // name
+						np := c.a.NameKeeper.GetParams(ctx)
+						np.AllowUnrestrictedNames = v%2 == 0
+						np.MaxNameLevels = []uint32{16, 2, 16, 100}[v]
+						c.a.NameKeeper.SetParams(ctx, np)
+					case 4: // attribute
+						c.a.AttributeKeeper.SetParams(ctx, attrtypes.Params{MaxValueLength: []uint32{0, 1, 10000, 1 << 31}[v]})
+					case 5: // sanction: immediate thresholds (empty = not available)
+						mk := func(n int64) sdk.Coins {
+							if n == 0 {
+								return nil
+							}
+							return sdk.NewCoins(sdk.NewInt64Coin("nhash", n))
+						}
+						return c.a.SanctionKeeper.SetParams(ctx, &sanction.Params{
+							ImmediateSanctionMinDeposit: mk(int64(v) * 1000), ImmediateUnsanctionMinDeposit: mk(int64((v+1)%4) * 500)})
+					}
+					return nil
 				})
 			case 14: // plain send
 				from, to := pick(), pick()
